@@ -575,6 +575,8 @@ class Exec:
     def do_return(self, st, vals):
         fr = st.frames.pop()
         ret = vals[0] if len(vals) == 1 else (tuple(vals) if vals else None)
+        if self.trace_calls and any(fr.fn['name'].endswith(t) for t in self.trace_calls):
+            st.events.append(('ret', fr.fn['name'], ret))
         if not st.frames:
             e = PathEnd('ok')
             e.ret = ret
